@@ -13,10 +13,10 @@ from ..oracle import N
 
 RULE = ("(a) Hypothesis-generated training corpora (2-40 token sequences of length 0-8 over alphabets "
         "of 1-8 tokens, any class balance with both classes present and >=1 non-empty document) and "
-        "query documents incl. unseen tokens, repeated tokens and the empty document: "
+        "query documents incl. unseen tokens, repeated tokens, the empty document and long documents (20-1200 tokens, joint log-likelihoods below the exp() underflow range, log-odds in the thousands): "
         "predict_log_proba of the fitted pipeline vs a textbook Laplace-smoothed multinomial NB over "
-        "all 1-3-grams written with Counters (tolerance 1e-9), finite, exp sums to 1 (1e-12); save -> "
-        "load changes no prediction. (b) bundled corpus expressions under the shipped model through a "
+        "all 1-3-grams written with Counters (tolerance 1e-9, relative for magnitudes above 1), finite, exp sums to 1 (1e-12); save -> "
+        "load changes no prediction; NaiveBayesScorer(model).score/score_final on a real partial parse carrying the query as its rule trace equal reference log-odds + length term. (b) bundled corpus expressions under the shipped model through a "
         "recording scorer: every score()/score_final() call equals log-odds recomputed from the "
         "model tables + log(covered/len(text)) (x1000 for final). Non-trivial = distinct (corpus, "
         "query) with a query containing a known n-gram of order >= 2 or an unseen token; distinct "
@@ -85,10 +85,15 @@ def corpus_strategy():
         Q = [[(alpha + UNSEEN)[i % (alpha_n + len(UNSEEN))] for i in q] for q in queries]
         return X, y, Q
 
+    short_q = st.lists(st.integers(0, 10), min_size=0, max_size=8)
+    # long documents: joint log-likelihoods of several hundred nats (where exp() underflows) and log-odds in the
+    # hundreds or thousands
+    long_q = st.one_of(st.lists(st.integers(0, 10), min_size=20, max_size=160),
+                       st.builds(lambda pat, k: (pat * k)[:1200], st.lists(st.integers(0, 7), min_size=1, max_size=4), st.integers(10, 400)))
     return st.builds(build, st.integers(1, 8),
                      st.lists(st.lists(st.integers(0, 7), min_size=0, max_size=8), min_size=2, max_size=40),
                      st.lists(st.booleans(), min_size=1, max_size=9),
-                     st.lists(st.lists(st.integers(0, 10), min_size=0, max_size=8), min_size=1, max_size=6))
+                     st.lists(st.one_of(short_q, short_q, short_q, long_q), min_size=1, max_size=6))
 
 
 def check_corpus(X, y, Q, tmpdir=None):
@@ -133,7 +138,7 @@ def check_corpus(X, y, Q, tmpdir=None):
         if not all(isinstance(g, float) and math.isfinite(g) for g in got):
             fails.append(("log-proba-not-finite", "{!r}".format(got), q))
             continue
-        if abs(got[0] - exp[0]) > TOL or abs(got[1] - exp[1]) > TOL:
+        if abs(got[0] - exp[0]) > TOL * max(1.0, abs(exp[0])) or abs(got[1] - exp[1]) > TOL * max(1.0, abs(exp[1])):
             fails.append(("log-proba-differs-from-textbook", "library {} reference {}".format(got, exp), q))
         if abs(math.exp(got[0]) + math.exp(got[1]) - 1.0) > 1e-12:
             fails.append(("probabilities-do-not-sum-to-one", "{}".format(math.exp(got[0]) + math.exp(got[1])), q))
@@ -141,6 +146,13 @@ def check_corpus(X, y, Q, tmpdir=None):
             got2 = loaded.predict_log_proba([q])[0]
             if tuple(got2) != tuple(got):
                 fails.append(("save-load-changes-prediction", "{} vs {}".format(got, got2), q))
+    # score / score_final of a scorer built on THIS model, for a partial parse whose rule trace is the query
+    try:
+        fails.extend(direct_scores(model, ref, Q))
+    except core.HarnessError:
+        raise
+    except Exception as e:
+        fails.append(("direct-score-raises:" + type(e).__name__, repr(e), None))
     # batch prediction = per-document prediction
     try:
         batch = model.predict_log_proba([list(q) for q in Q])
@@ -150,6 +162,48 @@ def check_corpus(X, y, Q, tmpdir=None):
     except Exception as e:
         fails.append(("batch-predict-raises:" + type(e).__name__, repr(e), None))
     return fails
+
+
+_pp_cache = {}
+
+
+def _partial_parse():
+    """a real PartialParse (from the matches of a real text) whose rule trace can be replaced"""
+    if "pp" not in _pp_cache:
+        m = core.load_repo()
+        from ctparse.partial_parse import PartialParse
+        txt = "tomorrow 8pm xyz"
+        ms = m._match_regex(txt, m.global_regex)
+        seq = m._regex_stack(txt, ms)[0]
+        _pp_cache["pp"] = (txt, PartialParse.from_regex_matches(seq), seq)
+    return _pp_cache["pp"]
+
+
+def direct_scores(model, ref, Q):
+    import datetime as _dt
+    from ctparse.nb_scorer import NaiveBayesScorer
+    from ctparse.partial_parse import PartialParse
+    txt, pp0, seq = _partial_parse()
+    sc = NaiveBayesScorer(model)
+    out = []
+    ts = _dt.datetime(2020, 1, 1)
+    covered = seq[-1].mend - seq[0].mstart
+    for q in Q:
+        if not q:
+            continue
+        pp = PartialParse(prod=tuple(seq), rules=tuple(q))
+        lp = ref.log_proba(q)
+        lo = lp[1] - lp[0]
+        got = sc.score(txt, ts, pp)
+        exp = lo + math.log(covered / len(txt))
+        if not math.isfinite(got) or abs(got - exp) > 1e-7 * max(1.0, abs(exp)):
+            out.append(("score-is-not-logodds-plus-length-term", "trace of {} tokens: library {} reference {}".format(len(q), got, exp), q))
+        x = seq[0]
+        got = sc.score_final(txt, ts, pp, x)
+        exp = lo + 1000.0 * math.log((x.mend - x.mstart) / len(txt))
+        if not math.isfinite(got) or abs(got - exp) > 1e-7 * max(1.0, abs(exp)):
+            out.append(("score_final-is-not-logodds-plus-1000x-length-term", "trace of {} tokens: library {} reference {}".format(len(q), got, exp), q))
+    return out
 
 
 def _shard_a(arg):
@@ -279,7 +333,7 @@ def run(ctx):
     acc.merge(core.pmap_acc(ctx.pid, _shard_b, [(ctx.pid, p) for p in core.chunks(jobs, 16)]))
     return core.finish(ctx, acc, RULE, assumptions=[
         "tokens contain no blank (n-grams are blank-joined); training sets with one class only or without any token are outside the textbook model",
-        "tolerance 1e-9 on log-probabilities, 1e-12 on the probability sum, 1e-6 relative on composed scores"],
+        "tolerance 1e-9 x max(1, |value|) on log-probabilities (summation order differs), 1e-12 on the probability sum, 1e-7 relative on composed scores"],
         shrinker=_shrink)
 
 
